@@ -70,6 +70,38 @@ def translate(path):
                 hint_loops.append("comprehension: " + src(n))
             if isinstance(n, ast.While):
                 loops.append("while " + src(n.test))
+    # every comparison in add() that involves the hint, in source order (the model: equality with the member's name)
+    tests = []
+    if "add" in methods:
+        cmps = sorted((n for n in ast.walk(methods["add"]) if isinstance(n, ast.Compare)
+                       and any(isinstance(x, ast.Name) and x.id == "hint" for x in ast.walk(n))), key=lambda n: (n.lineno, n.col_offset))
+        tests = [src(n) for n in cmps]
+        # other ways of matching: method calls on / with the hint (startswith, find, re.match, ...)
+        for n in ast.walk(methods["add"]):
+            if isinstance(n, ast.Call) and not isinstance(n.func, ast.Name) and any(
+                    isinstance(x, ast.Name) and x.id == "hint" for a in ([n.func] + list(n.args)) for x in ast.walk(a)) \
+                    and not (isinstance(n.func, ast.Attribute) and n.func.attr in ("format", "__add", "_GeneratedsSuperSuper__add")):
+                tests.append("call: " + src(n))
+    # _check_arg_list: how the collection of permitted names is built and how a keyword is tested against it
+    # (the model: membership in the LIST of member names)
+    arg_check = []
+    if "_check_arg_list" in methods:
+        f = methods["_check_arg_list"]
+        nodes = sorted((n for n in ast.walk(f) if isinstance(n, (ast.Assign, ast.AugAssign, ast.AnnAssign, ast.Expr, ast.Compare))),
+                       key=lambda n: (n.lineno, n.col_offset))
+        for n in nodes:
+            if isinstance(n, ast.Compare):
+                if any(isinstance(x, ast.Name) and x.id in ("arg", "member_names") for x in ast.walk(n)):
+                    arg_check.append(src(n))
+            elif isinstance(n, ast.Expr):
+                if isinstance(n.value, ast.Call) and any(isinstance(x, ast.Name) and x.id == "member_names" for x in ast.walk(n.value.func)):
+                    arg_check.append(src(n))
+            else:
+                tg = n.targets if isinstance(n, ast.Assign) else [n.target]
+                if any(isinstance(x, ast.Name) and x.id == "member_names" for t in tg for x in ast.walk(t)):
+                    arg_check.append(src(n))
+    res["arg_check"] = arg_check
+    res["hint_tests"] = tests
     res["add_loops"] = loops
     res["hint_loops"] = hint_loops
     # validate(): default of `recursive`, and the recursive argument at the build-time call sites in add / component_factory
